@@ -1028,6 +1028,8 @@ class Executor:
             if not (isinstance(c, PyConst) and isinstance(c.obj, type)):
                 raise Unsupported(f"handler type {c!r}")
             ec = exc.cls
+            if c.obj is BaseException:
+                return True                       # every exception, whatever its (possibly abstract) class
             if isinstance(ec, PyConst):
                 if issubclass(ec.obj, c.obj):
                     return True
